@@ -45,12 +45,18 @@ CLAIMED = {
              "recursion fuel of 16385 nested name decodings and 130 label iterations is never exhausted, because pointer targets "
              "strictly decrease and are below 2^14), every error carries the first two octets as id exactly when two octets exist, "
              "decode bs = Ok m <-> Parses bs m for the relational RFC 1035 grammar (labels <= 63, names <= 255, strictly backward "
-             "pointers, RDLENGTH = consumed, sections as long as the counts), and every decoded message is well formed. Model tied "
+             "pointers, RDLENGTH = consumed, sections as long as the counts), and every decoded message is well formed. Bounded work "
+             "(decode_steps): the decoder rewritten with a counter of cursor operations (next_u8/u16/u32/take) has the model's result "
+             "as its result component and performs at most 769 * (|input| + 1) * 16384 operations: at most 128 label iterations per "
+             "nested name call, at most min(start + 1, 16385) nested calls per name, at most three names per record, and at most "
+             "|input| - 11 question/record decoder calls whatever the four 16-bit counts claim, since each successful one advances "
+             "the cursor. Model tied "
              "to the Rust code by a differential stream (valid, truncated, mutated, random and adversarial inputs up to 64 KiB) and "
              "an independent python RFC 1035 decoder as oracle.",
         note="Stack use per frame is a compiler matter outside the model: the theorem gives the hop bound (<= 16384 nested calls), "
              "the thorough tier decodes the maximal legal pointer chain with the release build on a 2 MiB thread in a subprocess. "
-             "The step-count bound decode_steps (DESIGN C03 T.2) is not proved; termination and the recursion depth bound are.",
+             "The step count of decode_steps is a count of the model's cursor primitives (the instrumented decoder is proved to "
+             "return the model's result); time per primitive in the compiled code is outside the model.",
         design="5/C03", technique="Coq proof over executable model + model/impl correspondence (extraction)"),
     "C04": dict(
         text="Theorems about the Gallina model of Message::to_octets (WritableBuffer with the name -> pointer table, whole-name "
@@ -217,8 +223,19 @@ CLAIMED = {
              "prescribes, through the wire codec, when the replies are well-formed and fit 512 octets); on the specification "
              "side C07_referral_strictly_deeper, C07_auth_answer_from_universe; C07_example_two_level evaluates the model against "
              "Universe.serve through the wire codec inside Coq on a consistent two-level universe (result = auth_answer for an "
-             "alias and for a missing name). STREAM-ONLY (not proved): that the hops chain up, i.e. that the result EQUALS "
-             "auth_answer on every consistent "
+             "alias and for a missing name). DEPTH 1 PROVED END TO END (C07_correct_depth0, C07_correct_depth1): for every universe "
+             "with a root zone, every list of root hints (root NS records + A records of the hosts they name) from which "
+             "Zone::insert builds the only local zone, every candidate order that is a permutation, every port and fuel >= 3, an "
+             "empty SimpleCache, mode only-v4 and the fault-free universe oracle through the wire codec: when the zone owning the "
+             "question name is the root zone, or a zone delegated from the root with A glue for each of its nameservers "
+             "(wherever their names lie), with no alias at the name and a question type other than CNAME/ANY, the result is "
+             "EXACTLY auth_answer (the records of the asked type as the zone lists them, or nothing and the zone's SOA) and the "
+             "log is exactly one UDP exchange with a root server, resp. that followed by one with a server of the delegated zone. "
+             "Ingredients proved for every hints list / record list: C07_hints_zone_lookup (a zone built from hints answers a "
+             "lookup with exactly the matching hints, via C02's flat specification), C07_simple_cache_get_after_insert_all, "
+             "C07_sort_names_ord_permutation; the hypotheses are met by the worked universe (C07_example_depth0/1). "
+             "STREAM-ONLY (not proved): that the hops chain up at depth > 1, through aliases, through nameservers without glue "
+             "and in the v6 modes, i.e. that the result EQUALS auth_answer on every consistent "
              "universe (C07_correct_partial is stated in a comment of Properties/C07.v with what is missing). That clause is covered "
              "by the differential stream and the oracle: generated universes (depth 1..5, 1..3 nameservers per zone, "
              "in/out-of-bailiwick and sibling nameserver names, glue present/absent, v4/v6/dual addresses, cross-zone CNAMEs, "
@@ -226,10 +243,13 @@ CLAIMED = {
              "transport (hook H3) from a reply table computed by the extracted Universe.serve; the implementation's result must "
              "equal the extracted auth_answer and the model must agree with the implementation on every exchange, result and the "
              "final cache.",
-        note="C07_correct_partial is NOT proved as a whole, not even for depth 1. Missing to chain the proved hops: (1) that "
-             "resolve_hostname_to_ip yields for the popped candidate an address at which a server of the delegated zone listens "
-             "(lookup behaviour of the root-hints zone for arbitrary names via C02's flat specification; get-after-insert_all for "
-             "the cached glue); (2) a well-formedness predicate on universes implying [serve_fits] (replies well formed and at "
+        note="C07_correct_partial is proved for depth 1 only (hypotheses of C07_correct_depth1, all but [serve_fits] decidable on "
+             "the universe and the question: hints well formed and leading to root servers, hints not answering the question "
+             "themselves, glue-complete delegation whose addresses are servers of the delegated zone, positive glue TTL, the "
+             "question name owning no glue -- finding F11; consistentb is not needed beyond these). Missing for the whole "
+             "statement: (1) the induction over depth: the cache then holds the glue of several referrals (get after several "
+             "insert_all) and nameserver hosts without glue are resolved recursively; (2) a well-formedness predicate on universes "
+             "implying [serve_fits] (replies well formed and at "
              "most 512 octets), under which C07_universe_oracle_delivers discharges the hop theorems' hypothesis [delivers]; "
              "(3) aliases (serve's multi-link answers, the CNAME continuation); (4) the glue "
              "shortcut F11 as a hypothesis on the universe. Stated hypothesis of the property as "
